@@ -1,7 +1,7 @@
 """C01 - pairing is the BLS12-381 optimal-ate pairing (partial claim: identity clause + generator constant)."""
 from .. import guards, consts, formulas, fieldlayer
 
-EXPL = ('Partial claim. The numerical value of the pairing, bilinearity and order r quantify over ~2^510 inputs and are '
+EXPL = ('(R-POLY/line) miller_doubling_step / miller_addition_step are interpreted over the coordinate ring (Fq2 as ring leaf): the running point is updated by the tangent / chord rule (affine images, cross-multiplied) and the coefficient triple (c : b : a) is proportional to the tangent / chord line through the untwisted points, (3X^3-2Y^2 : -3X^2Z^2 : 2YZ^3) resp. (N x2 - D y2 : -N : D); ell multiplies the accumulator by c + (b xP) v + (a yP) v w (compared at base-field level with the definitional tower product); the dropped Fq2 / w^3 factors die in the final exponentiation because (q^4-1) divides 3(q^12-1)/r. (R-FIELDLAYER) no code outside the decided field primitives writes a field representation. Partial claim. The numerical value of the pairing, bilinearity and order r quantify over ~2^510 inputs and are '
         'NOT decided (no static argument in reach). Decided: (R-GUARD/G1) the clause "e(P,Q) = 1 when P or Q is the '
         'identity, wherever the pair sits in a product": in the multi-pair Miller loop every line evaluation / doubling / '
         'addition step is control-dependent on the non-identity edges of both members of the same pair (affine and '
@@ -19,7 +19,7 @@ EXPL = ('Partial claim. The numerical value of the pairing, bilinearity and orde
 def run(ctx):
     ctx.explanation = EXPL
     ctx.level = 'other'
-    ctx.assumptions = ['everything about the pairing value for non-identity inputs is outside this check']
+    ctx.assumptions = ['that tangent/chord lines accumulated over the bits of |x|, conjugated and raised to 3(q^12-1)/r form the optimal-ate pairing is the textbook theorem (assumed); base-field exactness is C02/C03']
     for cfg, prog in ctx.programs().items():
         fieldlayer.rule_field_layer(ctx, cfg, prog)
         guards.g1_miller_loop(ctx, cfg, prog)
